@@ -3,8 +3,9 @@
 Freezes the CURRENT regenerated table entries as per-run obligations
 (Examples checked by vm_compute against coq/gen on every run).  Run by hand
 when a model is (re)written against the code; the result is committed."""
-import re, sys, os
+import re, sys, os, subprocess
 V = os.path.dirname(os.path.dirname(os.path.abspath(__file__)))
+subprocess.run([os.path.join(V, "bin/regen")], check=True, stdout=subprocess.DEVNULL)  # freeze what /repo says now
 gen = open(os.path.join(V, "coq/gen/GenBodies.v")).read()
 tables = {}
 for m in re.finditer(r'Definition (\w+) : list \(string \* \(string \* string\)\) := \[\n(.*?)\n\]\.', gen, re.S):
